@@ -246,12 +246,18 @@ def validPeerId (p : Mh) : Bool :=
 
 def bytesOk (l : List Nat) : Bool := l.all (· < 256)
 
-/-- Spec for `from_bytes bs = r`: an accepted value is a valid peer id whose canonical encoding is
-`bs` — or `bs` is at least 9 bytes longer than that (it carries a 10-byte varint: the
-unsigned-varint truncation, reported); a valid canonical encoding is never rejected. -/
+/-- the accepted input carries an over-long (10-byte) varint: it is at least 9 bytes longer than
+the canonical encoding of the result (`unsigned-varint` drops the bits ≥ 2⁶⁴ instead of rejecting) -/
+def isOverlong (bs : List Nat) (r : Except ParseErr Mh) : Bool :=
+  match r with
+  | .ok p => validPeerId p && toBytes p != bs && decide (bs.length ≥ p.digest.length + 11)
+  | .error _ => false
+
+/-- Spec for `from_bytes bs = r` (strict): an accepted value is a valid peer id whose canonical
+encoding IS `bs`; a valid canonical encoding is never rejected. -/
 def specFromBytes (bs : List Nat) (r : Except ParseErr Mh) : Bool :=
   match r with
-  | .ok p => validPeerId p && (toBytes p == bs || decide (bs.length ≥ p.digest.length + 11))
+  | .ok p => validPeerId p && toBytes p == bs
   | .error _ =>
     -- not the canonical encoding of any valid peer id
     match bs with
